@@ -410,3 +410,62 @@ func orderReach(f *ssa.Function, val func(ssa.Value) (int, bool)) (success, fail
 	}
 	return
 }
+
+// orderReachFrom: like orderReach, starting at block b.
+func orderReachFrom(b *ssa.BasicBlock, val func(ssa.Value) (int, bool)) (success, failure bool) {
+	seen := map[*ssa.BasicBlock]bool{}
+	var walk func(b *ssa.BasicBlock)
+	walk = func(b *ssa.BasicBlock) {
+		if seen[b] {
+			return
+		}
+		seen[b] = true
+		last := b.Instrs[len(b.Instrs)-1]
+		switch x := last.(type) {
+		case *ssa.Return:
+			if cl, _ := classifyReturn(x); cl == retError {
+				failure = true
+			} else {
+				success = true
+			}
+			return
+		case *ssa.If:
+			if bo, ok := x.Cond.(*ssa.BinOp); ok {
+				a, ok1 := val(bo.X)
+				c, ok2 := val(bo.Y)
+				if ok1 && ok2 {
+					t, known := false, true
+					switch bo.Op {
+					case token.LSS:
+						t = a < c
+					case token.LEQ:
+						t = a <= c
+					case token.GTR:
+						t = a > c
+					case token.GEQ:
+						t = a >= c
+					case token.EQL:
+						t = a == c
+					case token.NEQ:
+						t = a != c
+					default:
+						known = false
+					}
+					if known {
+						if t {
+							walk(b.Succs[0])
+						} else {
+							walk(b.Succs[1])
+						}
+						return
+					}
+				}
+			}
+		}
+		for _, sc := range b.Succs {
+			walk(sc)
+		}
+	}
+	walk(b)
+	return
+}
